@@ -26,8 +26,8 @@ from . import common, mcommon, c04
 ID = "C08"
 NEEDS_MODEL = True
 LEVEL = "exploration"
-NSPECS = {"quick": 128, "thorough": 800}
-NSEEDS = {"quick": 8, "thorough": 48}
+NSPECS = {"quick": 128, "thorough": 1500}
+NSEEDS = {"quick": 8, "thorough": 64}
 HERE = os.path.dirname(os.path.dirname(os.path.dirname(os.path.abspath(__file__))))
 TECHNIQUE = ("runtime monitoring under schedule perturbation: worker processes with different "
              "PYTHONHASHSEED values compile one corpus; every distinct text is scope-checked and "
